@@ -1,7 +1,11 @@
 SPECIFICATION Spec
 CONSTANTS
-  StopRule = "minusDelay"
-  ChunkRule = "code"
-  SeedSpace <- SeedsFull
+  StopRule = "plusDelay"
+  ChunkRule = "delayAware"
+  ReduceRule = "loop"
+  KeyRule = "fallback"
+  AssignRule = "strict"
+  SeedSpace <- SeedsFullX
   SizeSpace <- SizeTriplesT
 INVARIANT Report
+INVARIANT DesignValid
